@@ -1495,6 +1495,10 @@ pub mod verif_api {
             }
             n
         }
+        /// What a sender is handed at `now` (forward to the handle's hand-out function).
+        pub fn handed_out(&self, now: SystemTime) -> Option<ScionPath> {
+            pathset::PathSetHandle { shared: self.set.shared.clone() }.try_unexpired_active_path(now)
+        }
         /// Forward to the real `PathSet::next_maintain`: time until the worker loop's next
         /// maintenance tick.
         pub fn next_maintain_in(&self, now: SystemTime) -> Duration {
